@@ -299,27 +299,32 @@ Proof.
 Qed.
 
 (** C12, encoder conforms (INT64) *)
-Theorem delta64_encode_conforms vs : vs <> [] -> Forall u64v vs -> len vs < W64 ->
-  spec_delta_decode 64 (delta_bytes_int64 vs) =
-  Some {| ds_block := 128; ds_minis := 4; ds_values := vs; ds_rest := [] |}.
+Theorem delta64_encode_conforms_rest vs rest : vs <> [] -> Forall u64v vs -> len vs < W64 ->
+  spec_delta_decode 64 (delta_bytes_int64 vs ++ rest) =
+  Some {| ds_block := 128; ds_minis := 4; ds_values := vs; ds_rest := rest |}.
 Proof.
   intros Hne Hu Hl. destruct vs as [|v0 t]; [contradiction|]. inversion Hu as [|? ? Hv0 Ht]; subst.
   unfold delta_bytes_int64, spec_delta_decode.
-  set (ds := deltas64 v0 t). set (n := len (v0 :: t)) in *.
-  destruct (header_read n v0 (enc_blocks (length ds) ds) Hl Hv0) as [r4 [R1 [R2 [R3 R4]]]].
+  set (ds := deltas64 v0 t). set (n := len (v0 :: t)) in *. rewrite <- app_assoc.
+  destruct (header_read n v0 (enc_blocks (length ds) ds ++ rest) Hl Hv0) as [r4 [R1 [R2 [R3 R4]]]].
   rewrite R1, R2. change (legal_geometry BLOCK MINIS) with true. cbn [negb].
   rewrite R3. unfold read_zigzag. rewrite R4.
   assert (En : (n =? 0) = false) by (apply N.eqb_neq; unfold n, len; cbn [length]; lia). rewrite En.
   change (N.to_nat (BLOCK / MINIS)) with 32%nat. change (N.to_nat MINIS) with 4%nat.
   assert (Ln : (N.to_nat n - 1)%nat = length ds).
   { unfold n, len, ds. rewrite deltas64_length. cbn [length]. lia. }
-  rewrite Ln. rewrite <- (app_nil_r (enc_blocks (length ds) ds)).
-  destruct (spec_blocks_enc 64 u64v (length ds) width_ok_64 ds (N.to_nat n) (unzigzag (zigzag_enc v0)) v0 [])
+  rewrite Ln.
+  destruct (spec_blocks_enc 64 u64v (length ds) width_ok_64 ds (N.to_nat n) (unzigzag (zigzag_enc v0)) v0 rest)
     as [vals [E F]]; [apply deltas64_u64|lia|lia|apply unzigzag_enc_cong; exact Hv0|].
   rewrite E. f_equal. change BLOCK with 128. change MINIS with 4. f_equal. cbn [map]. f_equal.
   - apply zcong_wrap. apply unzigzag_enc_cong; exact Hv0.
   - rewrite (map_wrap_cong _ _ F). apply sums_deltas64; assumption.
 Qed.
+
+Corollary delta64_encode_conforms vs : vs <> [] -> Forall u64v vs -> len vs < W64 ->
+  spec_delta_decode 64 (delta_bytes_int64 vs) =
+  Some {| ds_block := 128; ds_minis := 4; ds_values := vs; ds_rest := [] |}.
+Proof. intros. rewrite <- (app_nil_r (delta_bytes_int64 vs)). apply delta64_encode_conforms_rest; assumption. Qed.
 
 (** ** Part B: the model decoder follows the reference decoder *)
 Definition rel_md (md : Z) (a d : N) : Prop := zcong (md + Z.of_N a) d.
@@ -705,28 +710,33 @@ Proof.
 Qed.
 
 (** C12, encoder conforms (INT32: no mini-block wider than 32 bits) *)
-Theorem delta32_encode_conforms vs : vs <> [] -> Forall u32v vs -> len vs < W64 ->
-  spec_delta_decode 32 (delta_bytes_int32 vs) =
-  Some {| ds_block := 128; ds_minis := 4; ds_values := vs; ds_rest := [] |}.
+Theorem delta32_encode_conforms_rest vs rest : vs <> [] -> Forall u32v vs -> len vs < W64 ->
+  spec_delta_decode 32 (delta_bytes_int32 vs ++ rest) =
+  Some {| ds_block := 128; ds_minis := 4; ds_values := vs; ds_rest := rest |}.
 Proof.
   intros Hne Hu Hl. destruct vs as [|v0 t]; [contradiction|]. inversion Hu as [|? ? Hv0 Ht]; subst.
   unfold u32v in Hv0. unfold delta_bytes_int32, spec_delta_decode.
-  set (ds := deltas32 v0 t). set (n := len (v0 :: t)) in *.
+  set (ds := deltas32 v0 t). set (n := len (v0 :: t)) in *. rewrite <- app_assoc.
   assert (Hs0 : sext32 v0 < W64) by (apply s32v_u64; apply sext32_s32; exact Hv0).
-  destruct (header_read n (sext32 v0) (enc_blocks (length ds) ds) Hl Hs0) as [r4 [R1 [R2 [R3 R4]]]].
+  destruct (header_read n (sext32 v0) (enc_blocks (length ds) ds ++ rest) Hl Hs0) as [r4 [R1 [R2 [R3 R4]]]].
   rewrite R1, R2. change (legal_geometry BLOCK MINIS) with true. cbn [negb].
   rewrite R3. unfold read_zigzag. rewrite R4.
   assert (En : (n =? 0) = false) by (apply N.eqb_neq; unfold n, len; cbn [length]; lia). rewrite En.
   change (N.to_nat (BLOCK / MINIS)) with 32%nat. change (N.to_nat MINIS) with 4%nat.
   assert (Ln : (N.to_nat n - 1)%nat = length ds).
   { unfold n, len, ds. rewrite deltas32_length. cbn [length]. lia. }
-  rewrite Ln. rewrite <- (app_nil_r (enc_blocks (length ds) ds)).
-  destruct (spec_blocks_enc 32 s32v (length ds) width_ok_32 ds (N.to_nat n) (unzigzag (zigzag_enc (sext32 v0))) (sext32 v0) [])
+  rewrite Ln.
+  destruct (spec_blocks_enc 32 s32v (length ds) width_ok_32 ds (N.to_nat n) (unzigzag (zigzag_enc (sext32 v0))) (sext32 v0) rest)
     as [vals [E F]]; [apply deltas32_s32|lia|lia|apply unzigzag_enc_cong; exact Hs0|].
   rewrite E. f_equal. change BLOCK with 128. change MINIS with 4. f_equal. cbn [map]. f_equal.
   - rewrite (wrap32_cong _ (sext32 v0)) by (apply unzigzag_enc_cong; exact Hs0). apply sext32_u32; exact Hv0.
   - rewrite (map_wrap32_cong _ _ F). apply sums_deltas32; [apply sext32_u32; exact Hv0|exact Ht].
 Qed.
+
+Corollary delta32_encode_conforms vs : vs <> [] -> Forall u32v vs -> len vs < W64 ->
+  spec_delta_decode 32 (delta_bytes_int32 vs) =
+  Some {| ds_block := 128; ds_minis := 4; ds_values := vs; ds_rest := [] |}.
+Proof. intros. rewrite <- (app_nil_r (delta_bytes_int32 vs)). apply delta32_encode_conforms_rest; assumption. Qed.
 
 (** C12, decoder accepts (INT32) *)
 Theorem delta32_decode_accepts bs st : bytes bs -> spec_delta_decode 32 bs = Some st ->
@@ -751,6 +761,16 @@ Proof.
   pose proof (delta32_encode_conforms vs Hne Hu (N.lt_trans _ _ _ Hl pow31_lt)) as A.
   pose proof (delta32_decode_accepts _ _ (delta_bytes_int32_ok vs) A eq_refl eq_refl Hl) as B.
   cbn [ds_values ds_rest] in B. rewrite B. cbn [len length]. rewrite N.sub_0_r. reflexivity.
+Qed.
+
+(** the same when more data follows the stream (the length streams of DELTA_LENGTH / DELTA_BYTE_ARRAY) *)
+Theorem delta32_roundtrip_rest vs rest : vs <> [] -> Forall u32v vs -> len vs < 2 ^ 31 -> bytes rest ->
+  delta_decode_int32 (delta_bytes_int32 vs ++ rest) (len vs) = Ok (vs, len (delta_bytes_int32 vs)).
+Proof.
+  intros Hne Hu Hl Hr.
+  pose proof (delta32_encode_conforms_rest vs rest Hne Hu (N.lt_trans _ _ _ Hl pow31_lt)) as A.
+  pose proof (delta32_decode_accepts _ _ (bytes_app _ _ (delta_bytes_int32_ok vs) Hr) A eq_refl eq_refl Hl) as B.
+  cbn [ds_values ds_rest] in B. rewrite B. f_equal. f_equal. unfold len. rewrite app_length. lia.
 Qed.
 
 Example delta32_roundtrip_minmax :
